@@ -214,6 +214,8 @@ def cases(draw: Any, tier: str) -> Dict[str, Any]:
         st_ = [s for s in P["body"] if s["site"] == name]
         if st_ and P["fns"][st_[0]["fn"]].get("kind") == "tup":
             case["vals"][k] = prog.enc(draw(st.sampled_from([(3, 4), ("u", 0), (0, 1)])))
+        if st_ and P["fns"][st_[0]["fn"]].get("kind") == "dict":
+            case["vals"][k] = prog.enc({"a": draw(st.sampled_from([0, "A"])), "b": [draw(st.sampled_from([1, ""])), (2, draw(st.sampled_from([0, 3])))]})
     forms = {}
     first_use: Dict[str, str] = {}
     for s in P["body"]:
